@@ -64,7 +64,24 @@ def parse(src):
     p = rd()
     if pos != len(toks):
         raise ValueError('trailing tokens in pattern: ' + src)
-    return compile_pat(p)
+    return compile_pat(_norm_raw(p))
+
+
+def _norm_raw(p):
+    """the same spelling-independent forms the DAG simplifier produces: last element, first element"""
+    if not isinstance(p, tuple) or not p or not isinstance(p[0], tuple):
+        return p
+    p = tuple(_norm_raw(x) for x in p)
+    S = lambda name: ('sym', name)
+    if len(p) == 2 and p[0] == S('unwrap') and isinstance(p[1], tuple) and len(p[1]) == 3 and p[1][0] == S('call'):
+        if p[1][1] == S('slice::last'):
+            return (S('last'), p[1][2])
+        if p[1][1] == S('slice::first'):
+            return (S('index'), p[1][2], ('const', 0))
+    if len(p) == 3 and p[0] == S('index') and isinstance(p[2], tuple) and len(p[2]) == 3 and p[2][0] == S('sub') and p[2][2] == ('const', 1) \
+            and isinstance(p[2][1], tuple) and len(p[2][1]) == 2 and p[2][1][0] == S('len') and p[2][1][1] == p[1] and p[1] != ('_',):
+        return (S('last'), p[1])
+    return p
 
 
 def compile_pat(p):
@@ -347,8 +364,39 @@ import math
 DEFAULT = Matcher({'PI': math.pi, 'TAU': 2 * math.pi, 'FRAC_PI_2': math.pi / 2})
 
 
+EXPANDER = None      # set by rules.Ctx: d -> d with pure crate-local helpers and value combinators inlined (vpa/inline.py)
+
+
+def _pat_names(pp, acc):
+    """callee names mentioned by a pattern (those helpers must not be inlined away before matching)"""
+    if isinstance(pp, tuple):
+        for x in pp:
+            _pat_names(x, acc)
+    elif isinstance(pp, str) and '::' in pp:
+        acc.add(pp.lstrip('*'))
+    return acc
+
+
+def _expanded(pp, d):
+    if EXPANDER is None or not isinstance(d, tuple):
+        return None
+    try:
+        d2 = EXPANDER(d, tuple(sorted(_pat_names(pp, set()))))
+    except RecursionError:
+        return None
+    return d2 if d2 != d else None
+
+
 def match(pat, d, env=None):
-    return DEFAULT.match(P(pat) if isinstance(pat, str) else pat, d, env)
+    """match, and if that fails match again after inlining pure crate-local helpers the pattern does not itself mention
+    (so that extracting a helper from an anchored function does not change the verdict)"""
+    pp = P(pat) if isinstance(pat, str) else pat
+    r = DEFAULT.match(pp, d, env)
+    if r is None:
+        d2 = _expanded(pp, d)
+        if d2 is not None:
+            r = DEFAULT.match(pp, d2, env)
+    return r
 
 
 def find(pat, d, env=None):
@@ -358,4 +406,10 @@ def find(pat, d, env=None):
         e = DEFAULT.match(pp, s, env)
         if e is not None:
             return s, e
+    d2 = _expanded(pp, d)
+    if d2 is not None:
+        for s in subterms(d2):
+            e = DEFAULT.match(pp, s, env)
+            if e is not None:
+                return s, e
     return None
